@@ -6,6 +6,9 @@ import (
 	"fmt"
 
 	"github.com/cloudwego/kitex/pkg/rpcinfo"
+	routev3 "github.com/envoyproxy/go-control-plane/envoy/config/route/v3"
+	"google.golang.org/protobuf/types/known/anypb"
+	"google.golang.org/protobuf/types/known/wrapperspb"
 
 	"github.com/kitex-contrib/xds/core/xdsresource"
 	"github.com/kitex-contrib/xds/xdssuite"
@@ -44,22 +47,35 @@ func runPick(raw json.RawMessage) (interface{}, error) {
 	if err := json.Unmarshal(raw, &c); err != nil {
 		return nil, err
 	}
-	wcs := make([]*xdsresource.WeightedCluster, len(c.Weights))
+	// the weights travel the way the control plane sends them: a RouteConfiguration message with weighted
+	// clusters, decoded by the real UnmarshalRDS, served as the named route table of a listener
 	idx := map[string]int{}
+	var pcs []*routev3.WeightedCluster_ClusterWeight
 	for i, w := range c.Weights {
 		n := fmt.Sprintf("c%d", i)
-		wcs[i] = &xdsresource.WeightedCluster{Name: n, Weight: w}
+		pcs = append(pcs, &routev3.WeightedCluster_ClusterWeight{Name: n, Weight: wrapperspb.UInt32(w)})
 		idx[n] = i
 	}
-	route := &xdsresource.Route{Match: &xdsresource.HTTPRouteMatch{Prefix: "/"}, WeightedClusters: wcs}
+	rcpb := &routev3.RouteConfiguration{Name: "rc", VirtualHosts: []*routev3.VirtualHost{{Name: "vh", Routes: []*routev3.Route{{
+		Match: &routev3.RouteMatch{PathSpecifier: &routev3.RouteMatch_Prefix{Prefix: "/"}},
+		Action: &routev3.Route_Route{Route: &routev3.RouteAction{ClusterSpecifier: &routev3.RouteAction_WeightedClusters{
+			WeightedClusters: &routev3.WeightedCluster{Clusters: pcs}}}},
+	}}}}}
+	a, err := anypb.New(rcpb)
+	if err != nil {
+		return nil, err
+	}
+	a.TypeUrl = xdsresource.RouteTypeURL
+	decoded, err := xdsresource.UnmarshalRDS([]*anypb.Any{a})
+	if err != nil || decoded["rc"] == nil {
+		return nil, fmt.Errorf("pick: the generated route configuration did not decode: %v", err)
+	}
 	lis := &xdsresource.ListenerResource{NetworkFilters: []*xdsresource.NetworkFilter{{
-		FilterType: xdsresource.NetworkFilterTypeHTTP,
-		InlineRouteConfig: &xdsresource.RouteConfigResource{HTTPRouteConfig: &xdsresource.HTTPRouteConfig{
-			VirtualHosts: []*xdsresource.VirtualHost{{Name: "vh", Routes: []*xdsresource.Route{route}}},
-		}},
+		FilterType: xdsresource.NetworkFilterTypeHTTP, RouteConfigName: "rc",
 	}}}
 	fm := newFakeManager()
 	fm.set(xdsresource.ListenerType, "svc", lis, nil)
+	fm.set(xdsresource.RouteConfigType, "rc", decoded["rc"], nil)
 	setTarget(fm)
 	router := xdssuite.NewXDSRouter()
 	to := rpcinfo.NewEndpointInfo("svc", "method", nil, nil)
